@@ -31,7 +31,7 @@ func constString(v ssa.Value) (string, bool) {
 func checkC20(c *Ctx) Meta {
 	c.Rule("C20-GATE", "the handler given to http.ListenAndServe is accessControlHandler(everything else, decision function built from the configured whitelist and LAN settings); inside it the inner handler runs only on the allow edge and the deny edge answers 403; the gRPC listener binds a loopback constant", 4)
 	c.Rule("C20-ALLOW", "the LAN table is exactly RFC 1918 (10/8, 172.16/12, 192.168/16); every allow edge of the decision function is one of: wildcard flag, loopback literal, whitelist equality, enabled-LAN containment", 3)
-	c.Rule("C20-TARGET", "api.getBindingTarget is operation-for-operation the chain library's GetBindingTarget (or calls it); v1 passes (compressed public key, default proof type, bit length), v2 (plot id, chia proof type, k); the listed address derives from the same workspace's key", 4)
+	c.Rule("C20-TARGET", "api.getBindingTarget is operation-for-operation the chain library's GetBindingTarget (or calls it); v1 passes (compressed public key, default proof type, bit length), v2 (plot id, chia proof type, k); the listed address derives from the same workspace's key; every returned target depends on all three parameters", 5)
 	c.Rule("C20-EXACT", "no floating-point value occurs in AmountToString/StringToAmount or anything they call", 2)
 
 	// ---- GATE
@@ -518,6 +518,33 @@ func checkBindingTarget(c *Ctx) {
 			c.OK(rule, key, c.Pos(f.Pos()), "same construction as massutil.GetBindingTarget: "+a)
 		} else {
 			c.Bad(rule, key, c.Pos(f.Pos()), "the binding target is not built like the chain library's GetBindingTarget: api="+a+" chain="+b)
+		}
+	}
+	// every value returned as a binding target is a function of all three parameters (no path — a
+	// cache hit, a default — returns a target computed for other arguments)
+	{
+		key := "getBindingTarget:every-result-depends-on-key-type-and-size"
+		bad := ""
+		n := 0
+		for _, ret := range returnsOf(f) {
+			if len(ret.Results) == 0 || !isNilErrorReturn(ret) {
+				continue
+			}
+			n++
+			sl := backSlice(ret.Results[0])
+			for i := 0; i < 3 && i < len(f.Params); i++ {
+				if !sl.has(f.Params[i]) {
+					bad = fmt.Sprintf("the result returned at %s does not depend on parameter %s", c.Pos(ret.Pos()), f.Params[i].Name())
+				}
+			}
+		}
+		switch {
+		case n == 0:
+			c.Bad(rule, key, c.Pos(f.Pos()), "reason=anchor-missing: no successful return")
+		case bad != "":
+			c.Bad(rule, key, c.Pos(f.Pos()), bad+": a space listed with another size or proof type gets the target of the first listing of its key")
+		default:
+			c.OK(rule, key, c.Pos(f.Pos()), fmt.Sprintf("%d successful return(s), each derived from pub, proofType and bitLength", n))
 		}
 	}
 	// call sites
